@@ -33,6 +33,8 @@ class QuaHoldList(HoldList[QuaHold], QuaNoteList[QuaHold]):
         df.offset = df.offset.fillna(0)
         df.column = df.column.fillna(0)
         df.length = df.length.fillna(0)
+        # An omitted KeySounds key is the format's empty list, not NaN
+        df.keysounds = [k if isinstance(k, list) else [] for k in df.keysounds]
         return QuaHoldList(df)
 
     def to_yaml(self):
